@@ -1,6 +1,7 @@
 import SJ.Props.C13
 import SJ.Props.Typed
 import SJ.Props.TypedFaultEq
+import SJ.Props.StreamTyped
 #print axioms SJ.Props.C13.c13_read
 #print axioms SJ.Props.C13.c13_read_error_class
 #print axioms SJ.Props.C13.c13_write_prefix
@@ -10,3 +11,4 @@ import SJ.Props.TypedFaultEq
 #print axioms SJ.Props.TypedFaultEq.c13_typed_fault_eq
 #print axioms SJ.Props.TypedFaultEq.c13_typed_fault_io
 #print axioms SJ.Props.C13.c13_into_io_error
+#print axioms SJ.Props.StreamTyped.c13_typed_stream_fault
